@@ -195,7 +195,31 @@ func evalDkls(idx int, k kase, o *outcome) {
 		pt_ = append(pt_, t.Slice(rd[2]))
 	}
 	rng := vh.NewRng(k.Seed, "C01", "model", idx)
-	sk := split(rng, n, res.Secret, q)
+	// the parties' sk_i = additive share + PRZS zero share, recomputed with the library from the same
+	// shares and contexts; the theorem's hypotheses to_additive_sums and zero_sum are checked on them
+	var sk []*big.Int
+	sumA, sumZ := new(big.Int), new(big.Int)
+	for _, id := range res.Quorum {
+		a, z := res.Additive[id], res.Zeta[id]
+		if a == nil || z == nil {
+			sk = nil
+			break
+		}
+		sumA.Add(sumA, a)
+		sumZ.Add(sumZ, z)
+		v := new(big.Int).Add(a, z)
+		sk = append(sk, v.Mod(v, q))
+	}
+	if sk == nil {
+		sk = split(rng, n, res.Secret, q)
+	} else {
+		if sumA.Mod(sumA, q).Cmp(res.Secret) != 0 {
+			o.corr = append(o.corr, corrFail{key + "-to-additive-sums", fmt.Sprintf("the additive shares over the quorum sum to %s, the key is %s", vh.ZHex(sumA), vh.ZHex(res.Secret))})
+		}
+		if sumZ.Mod(sumZ, q).Sign() != 0 {
+			o.corr = append(o.corr, corrFail{key + "-zero-sum", "the PRZS zero shares of the quorum do not sum to zero"})
+		}
+	}
 	mk := func() [][]*big.Int {
 		m := make([][]*big.Int, n)
 		for i := range m {
